@@ -3,7 +3,7 @@ From Coq Require Import ZArith List Bool PArith FMapPositive QArith Qcanon Field
 Import ListNotations.
 Require Import MV.Lib.Base MV.C06.Base MV.C06.Gen MV.C06.Model MV.C06.Run.
 Require Export MV.C06.Proofs_Heap MV.C06.Proofs_World MV.C06.Proofs_Step MV.C06.Proofs_Merge MV.C06.Proofs_Alg
-               MV.C06.Proofs_Norm MV.C06.Proofs_Req MV.C06.Proofs_Sep MV.C06.Proofs_Qc.
+               MV.C06.Proofs_Norm MV.C06.Proofs_Req MV.C06.Proofs_Sep MV.C06.Proofs_More MV.C06.Proofs_Qc.
 
 (* the coordinates form a field (Leibniz equality) *)
 Definition field_laws {T} (O : ops T) : Prop :=
